@@ -132,6 +132,11 @@ def tlc(module, cfg=None, workers=1, env=None, timeout=600, extra=(), cwd=None, 
 
 # ------------------------------------------------------------------ driver
 
+def zlib_crc(text):
+    import zlib
+    return zlib.crc32(text.encode("utf-8", "replace"))
+
+
 def run_drv(b, script_text, workdir, name="x", fork=False, timeout=300, env=None):
     """Run harness/mtbl_drv on a script. Returns (events, returncode, stderr)."""
     sp = os.path.join(workdir, name + ".script")
@@ -143,6 +148,12 @@ def run_drv(b, script_text, workdir, name="x", fork=False, timeout=300, env=None
     e.setdefault("ASAN_OPTIONS", "detect_leaks=1:abort_on_error=0:exitcode=99:allocator_may_return_null=1")
     e.setdefault("UBSAN_OPTIONS", "halt_on_error=1:exitcode=98:print_stacktrace=1")
     e.setdefault("LSAN_OPTIONS", "exitcode=97")
+    # the reader's documented environment knob (madvise behaviour) must not change any observable behaviour: every
+    # driver run gets one of unset / "0" / "1", chosen from the script's content so that a run is reproducible
+    e.pop("MTBL_READER_MADVISE_RANDOM", None)
+    knob = (zlib_crc(script_text) >> 3) % 4
+    if knob in (1, 2):
+        e["MTBL_READER_MADVISE_RANDOM"] = str(knob - 1)
     if env:
         e.update(env)
     cmd = [b["drv"]] + (["-f"] if fork else []) + [sp, lp]
